@@ -261,7 +261,7 @@ def correspondence(ctx, res):
     res.rule = ("U6: every distinct schedule version (group, parameter, arrays) found over all date classes, evaluated by "
                 "the real piecewise_polynomial at every finite threshold, its two float neighbours (nextafter), "
                 "+-0.01, interior and exterior points; compared (1e-9 relative) with the model's exact rational "
-                "evaluation of the model's own parse of the regenerated YAML. A case is non-trivial when x is finite; "
+                "evaluation of the model's own parse of the regenerated YAML; a difference is decided by an independent exact reading of the raw YAML entry (incl. the progression factor of the income-tax tariff): the implementation is wrong iff it differs from that value. A case is non-trivial when x is finite; "
                 "distinct = distinct (group, parameter, x).")
     res.samples += [dict(unit="U6", **{k: (impl.iso(v) if k == "date" else v) for k, v in c.items()}) for c in cases[:4]]
     res.extra["u6"] = dict(schedule_versions=len(seen), cases=n, differences=len(diffs))
